@@ -14,7 +14,38 @@ import (
 // checkLockPairing checks the given functions; returns the number of acquisitions examined.
 func checkLockPairing(c *Ctx, r *Result, lfs *LockFlows, rule string, funcs []*ssa.Function) int {
 	n := 0
+	// functions that hand the acquired lock back as a release function, and those release functions
+	transferred := map[*ssa.Function]bool{}
 	for _, fn := range funcs {
+		if fn.Parent() != nil {
+			continue
+		}
+		handled, problems, closures := lockTransfer(c, fn)
+		if !handled {
+			continue
+		}
+		key := c.FuncKey(fn)
+		if len(problems) == 0 {
+			transferred[fn] = true
+			for cf := range closures {
+				transferred[cf] = true
+			}
+			r.Instance(rule, key+"#release-function", c.Pos(fn.Pos()), "ok", "acquires and returns the matching release function: on every path the returned function releases exactly the locks held, and every caller defers it at the call", true)
+			n++
+		} else if len(closures) > 0 {
+			r.Instance(rule, key+"#release-function", c.Pos(fn.Pos()), "finding", strings.Join(problems, "; "), true)
+			r.Report(Finding{Rule: rule, Site: key + "#release-function", Pos: c.Pos(fn.Pos()),
+				Msg: key + " returns a function that releases a lock it acquired, but the two do not pair up: " + strings.Join(problems, "; ")})
+			transferred[fn] = true
+			for cf := range closures {
+				transferred[cf] = true
+			}
+		}
+	}
+	for _, fn := range funcs {
+		if transferred[fn] {
+			continue
+		}
 		lf := lfs.Of(fn)
 		if lf == nil || len(lf.Ops) == 0 {
 			continue
